@@ -195,6 +195,8 @@ def message_zonefile_items(defs, ab, lim, LIM):
     b = fn_body(zf, "scan_name")
     m = one(r"if write (>=|>) " + NUM + r" \{\s*return Err\(EntryError::bad_name\(\)\);\s*\}", b, "scan_name length check")
     boo("zf_name_ge", ge(m.group(1))); nat("zf_name_lim", num(m.group(2)))
+    m = one(r"if write == start \+ " + NUM + r" \{\s*return Err\(EntryError::bad_name\(\)\);\s*\}\s*if write (?:>=|>) ", b, "scan_name empty-label test (two consecutive dots)")
+    nat("zf_empty_label_add", num(m.group(1)))
     if len(re.findall(r"\.chain\(", b)) != 5:
         raise GenError("scan_name: expected 5 chain() constructions (every exit goes through Chain::new)")
 
